@@ -14,6 +14,14 @@
 //     HSDONE                the peer completes the TLS handshake
 //     PWRITE <n>            the peer writes a payload of n units      RCUT <k>   reads on the session socket return <= k units
 //     PCLOSE                the peer closes                            CLOSE      Transport::close(session)
+//     PWRITEG <n>           PWRITE, and the data callback that delivers it PARKS the I/O thread (gate); while it is parked
+//                           SEND steps are issued by worker threads (their send() returns, the command stays queued),
+//     CBSEND <n>            the parked callback itself calls send() on the session (a send from the I/O thread),
+//     RELEASE               the callback returns.   gateconn=1: the accept / connect callback parks right at session set-up.
+//     AUTODRAIN <n>         fake kernel: right after the next write that is cut short, n more units of room appear (the peer's
+//                           ACKs free send-buffer space between two doSend() calls of one process() pass)
+//     keys: chunk=<ioReadChunk bytes, 0 = default> rec=<plaintext bytes per TLS record written by the peer, default 16384>
+//           fake=0 (no fake kernel: the real socket with sndbuf=/rcvbuf= decides; used with ~2 MiB payloads)
 //   mode=conc (stress: the accepted order of concurrent sends is not observable; the oracle demands the observable part)
 //     keys: threads= sends= (per thread) maxlen= (bytes) sndbuf= rcvbuf= (socket buffers, 0 = default) cutpm= (per mille of
 //           write calls cut short) rcutmax= (reads capped at a random size up to this, 0 = off) pwrites= (payloads written
@@ -68,6 +76,7 @@ struct FakeKernel
   long room = 0;
   bool lastEagain = false;
   bool errOnce = false;
+  long autoDrain = 0;           // room that appears right after the next short write
   std::atomic<long> wcalls{0}, wbytes{0};
   std::atomic<long> rcalls{0}, rEagain{0}, rbytes{0};
   std::atomic<long> rcut{0};    // bytes per read, 0 = unlimited
@@ -211,6 +220,11 @@ template <class F> static ssize_t fakeWrite(int fd, size_t n, F realCall)
   int e = errno;
   K.lk.lock();
   if (r > 0) K.room -= r;
+  if (r > 0 && (size_t)r < n && K.autoDrain > 0)
+  {
+    K.room += K.autoDrain;
+    K.autoDrain = 0;
+  }
   K.lastEagain = (r < 0 && (e == EAGAIN || e == EWOULDBLOCK));
   K.lk.unlock();
   K.wcalls++;
@@ -326,6 +340,8 @@ struct Params
   long wq = 1024, scale = 1, pcut = 0;
   int threads = 2, sends = 10, pwrites = 0, cutpm = 0;
   long maxlen = 1000, sndbuf = 0, rcvbuf = 0, rcutmax = 0;
+  long chunk = 0, rec = 16384;
+  int fake = 1, gateconn = 0;
   unsigned long seed = 1;
 };
 
@@ -350,13 +366,61 @@ struct Exec
   std::atomic<long> accBytes{0}; // bytes of accepted sends
   long peerWritten = 0;
   int nextIdx = 1, nextPidx = 1;
+  // parking the I/O thread inside a callback (gate) and letting it send from there
+  std::atomic<bool> gateArmed{false}, parked{false}, gateOpen{true};
+  std::atomic<long> cbReqLen{0};  // > 0: the parked callback shall send a payload of this length ...
+  std::atomic<int> cbReqIdx{0};   // ... with this index
+
+  // runs on the I/O thread inside a callback
+  void maybePark()
+  {
+    if (!gateArmed.exchange(false)) return;
+    parked = true;
+    while (!gateOpen.load())
+    {
+      long n = cbReqLen.load();
+      if (n > 0)
+      {
+        sendOne("io", n, cbReqIdx.load());
+        cbReqLen = 0;
+      }
+      usleep(50);
+    }
+    parked = false;
+  }
+  void armGate()
+  {
+    gateOpen = false;
+    gateArmed = true;
+  }
+  void sendOne(const std::string &thr, long n, int idx)
+  {
+    std::vector<std::uint8_t> b;
+    genPayload(idx, n, b);
+    g_trace.add(vf::Ev("SendCall").str("t", thr).i("idx", idx).i("len", n));
+    bool acc;
+    if (idx % 2 == 0)
+      acc = tr->send(sid.load(), iora::core::BufferView{b.data(), b.size()});
+    else
+    {
+      acc = false;
+      tr->sendAsync(sid.load(), iora::core::BufferView{b.data(), b.size()},
+                    [&acc](SessionId, const SendResult &r) { acc = r.isOk(); });
+    }
+    if (acc) accBytes += n;
+    g_trace.add(vf::Ev("SendRet").str("t", thr).i("idx", idx).b("acc", acc));
+  }
 
   void infraEv(const std::string &why)
   {
     infra = true;
     g_trace.add(vf::Ev("Infra").str("why", why));
   }
-  void barrier() { (void)tr->addListener("!", 0, TlsMode::None); }
+  void barrier()
+  {
+    if (!gateOpen.load()) return; // the I/O thread is parked: nothing can be processed (and this call would block)
+    (void)tr->addListener("!", 0, TlsMode::None);
+  }
   bool waitUntil(const std::function<bool()> &f, double sec)
   {
     double t0 = vf::nowSec();
@@ -488,7 +552,7 @@ struct Exec
     size_t o = 0;
     while (o < n)
     {
-      int r = SSL_write(pssl, p + o, (int)std::min<size_t>(n - o, 16384));
+      int r = SSL_write(pssl, p + o, (int)std::min<size_t>(n - o, (size_t)P.rec));
       if (r <= 0) return false;
       o += (size_t)r;
       flushPeerTls();
@@ -499,6 +563,7 @@ struct Exec
   // ---- engine quiescence (seq mode): two barrier rounds without any I/O attempt, or the engine polling a full socket
   void settle()
   {
+    if (!gateOpen.load()) return;
     for (int it = 0; it < 4000; ++it)
     {
       long w0 = K.wcalls.load(), r0 = K.rcalls.load();
@@ -562,11 +627,12 @@ struct Exec
     cfg.batching.enabled = P.batch != 0;
     cfg.maxWriteQueue = (std::size_t)P.wq;
     cfg.gcInterval = std::chrono::seconds(3600);
-    if (P.mode == "conc")
+    if (P.mode == "conc" || !P.fake)
     {
       cfg.soSndBuf = (int)P.sndbuf;
       cfg.soRcvBuf = (int)P.rcvbuf;
     }
+    if (P.chunk > 0) cfg.ioReadChunk = (std::size_t)P.chunk;
     if (P.tls)
     {
       if (P.role == "srv")
@@ -589,17 +655,22 @@ struct Exec
                  {
                    sid = s;
                    announced = true;
+                   if (!P.tls) maybePark(); // (gateconn: a TLS session parks in onConnect, when its handshake is complete)
                  });
     tr->onConnect([this](SessionId s, const TransportAddress &)
                   {
                     // I/O thread; for TLS this is the moment the engine's handshake is complete
-                    if (P.tls && P.mode == "seq") K.limited = true;
+                    if (P.tls && P.mode == "seq" && P.fake) K.limited = true;
                     sid = s;
                     hsDoneEngine = true;
                     if (P.role == "cli") announced = true;
+                    maybePark();
                   });
     tr->onData([this](SessionId, iora::core::BufferView d, std::chrono::steady_clock::time_point)
-               { dData.feed((const std::uint8_t *)d.data(), d.size()); });
+               {
+                 dData.feed((const std::uint8_t *)d.data(), d.size());
+                 maybePark();
+               });
     tr->onClose([this](SessionId s, const TransportErrorInfo &)
                 {
                   if (sid.load() == 0 || s == sid.load())
@@ -610,7 +681,8 @@ struct Exec
                 });
     tr->onError([](TransportError, const std::string &) {});
     if (!tr->start().isOk()) return false;
-    if (!P.tls && P.mode == "seq") K.limited = true;
+    if (P.gateconn) armGate();
+    if (!P.tls && P.mode == "seq" && P.fake) K.limited = true;
     K.cutPerMille = P.mode == "conc" ? P.cutpm : 0;
     K.rcutMax = P.mode == "conc" ? P.rcutmax : 0;
     K.rng.seed(P.seed * 7919 + 13);
@@ -623,13 +695,13 @@ struct Exec
       if (!lr.isOk()) return false;
       a.sin_port = htons(tr->getListenerAddress(lr.value()).port);
       pfd = ::socket(AF_INET, SOCK_STREAM, 0);
-      if (P.mode == "conc") setBuf(pfd, P.sndbuf, P.rcvbuf);
+      if (P.mode == "conc" || !P.fake) setBuf(pfd, P.sndbuf, P.rcvbuf);
       if (real_connect()(pfd, (sockaddr *)&a, sizeof a) != 0) return false;
     }
     else
     {
       lfd = ::socket(AF_INET, SOCK_STREAM, 0);
-      if (P.mode == "conc") setBuf(lfd, P.sndbuf, P.rcvbuf);
+      if (P.mode == "conc" || !P.fake) setBuf(lfd, P.sndbuf, P.rcvbuf);
       a.sin_port = 0;
       if (::bind(lfd, (sockaddr *)&a, sizeof a) != 0 || ::listen(lfd, 4) != 0) return false;
       socklen_t sl = sizeof a;
@@ -647,7 +719,19 @@ struct Exec
     int one = 1;
     setsockopt(pfd, IPPROTO_TCP, TCP_NODELAY, &one, sizeof one);
     // the session exists on the engine side once it is announced (TLS client role: the session id is known from connect())
-    if (P.tls && P.role == "cli")
+    if (P.gateconn)
+    {
+      // the session's accept / connect callback parks the I/O thread (for TLS: once the handshake is complete)
+      if (!waitUntil(
+            [&]
+            {
+              if (P.tls) peerRead(1 << 30, true);
+              return parked.load();
+            },
+            8.0))
+        return false;
+    }
+    else if (P.tls && P.role == "cli")
     {
       if (!waitUntil([&] { return K.sessFd.load() >= 0; }, 5.0)) return false;
       barrier();
@@ -665,28 +749,11 @@ struct Exec
 
   void doSend(const std::string &thr, long n, int idx)
   {
-    std::vector<std::uint8_t> b;
-    genPayload(idx, n, b);
-    auto call = [&]
-    {
-      g_trace.add(vf::Ev("SendCall").str("t", thr).i("idx", idx).i("len", n));
-      bool acc;
-      if (idx % 2 == 0)
-        acc = tr->send(sid.load(), iora::core::BufferView{b.data(), b.size()});
-      else
-      {
-        acc = false;
-        tr->sendAsync(sid.load(), iora::core::BufferView{b.data(), b.size()},
-                      [&acc](SessionId, const SendResult &r) { acc = r.isOk(); });
-      }
-      if (acc) accBytes += n;
-      g_trace.add(vf::Ev("SendRet").str("t", thr).i("idx", idx).b("acc", acc));
-    };
     if (thr == "t1")
-      call();
+      sendOne(thr, n, idx);
     else
     {
-      std::thread t(call);
+      std::thread t([&] { sendOne(thr, n, idx); });
       t.join();
     }
   }
@@ -706,8 +773,17 @@ struct Exec
 
   // generous bounded wait: the kernel is open, the peer reads; done when everything accepted has arrived and everything the
   // peer wrote was delivered, or the session is closed, or nothing moved for stallSec
+  void release()
+  {
+    if (gateOpen.load()) return;
+    gateArmed = false;
+    gateOpen = true;
+    waitUntil([&] { return !parked.load(); }, 5.0);
+  }
+
   void finish(double stallSec)
   {
+    release();
     K.lk.lock();
     K.limited = false;
     K.errOnce = false;
@@ -806,6 +882,55 @@ struct Exec
       else if (op == "RCUT")
       {
         K.rcut = units(w[1]);
+      }
+      else if (op == "PWRITEG")
+      {
+        if ((P.tls && !peerHs) || !gateOpen.load()) continue;
+        int pidx = nextPidx++;
+        long n = units(w[1]);
+        g_plen[pidx] = (int)n;
+        std::vector<std::uint8_t> b;
+        genPayload(pidx, n, b);
+        g_trace.add(vf::Ev("PeerWrite").i("pidx", pidx).i("len", n));
+        peerWritten += n;
+        armGate();
+        if (!peerWrite(b.data(), b.size()) && !closedSeen.load() && !peerEof)
+        {
+          infraEv("peer write failed");
+          break;
+        }
+        if (!waitUntil([&] { return parked.load() || closedSeen.load(); }, 5.0))
+        {
+          infraEv("the data callback did not run within 5 s");
+          break;
+        }
+        if (!parked.load()) release();
+      }
+      else if (op == "CBSEND")
+      {
+        if (!parked.load()) continue; // (no callback is parked: the behaviour drifted)
+        int idx = nextIdx++;
+        long n = units(w[1]);
+        g_len[idx] = (int)n;
+        cbReqIdx = idx;
+        cbReqLen = n;
+        if (!waitUntil([&] { return cbReqLen.load() == 0; }, 5.0))
+        {
+          infraEv("the parked callback did not send within 5 s");
+          break;
+        }
+      }
+      else if (op == "RELEASE")
+      {
+        release();
+        barrier();
+        settle();
+      }
+      else if (op == "AUTODRAIN")
+      {
+        K.lk.lock();
+        K.autoDrain = units(w[1]);
+        K.lk.unlock();
       }
       else if (op == "PCLOSE")
       {
@@ -932,6 +1057,10 @@ struct Exec
       else if (k == "rcvbuf") P.rcvbuf = n;
       else if (k == "rcutmax") P.rcutmax = n;
       else if (k == "seed") P.seed = (unsigned long)n;
+      else if (k == "chunk") P.chunk = n;
+      else if (k == "rec") P.rec = n > 0 ? std::min<long>(n, 16384) : 16384;
+      else if (k == "fake") P.fake = (int)n;
+      else if (k == "gateconn") P.gateconn = (int)n;
     }
     signal(SIGPIPE, SIG_IGN);
     if (!setup()) return "{\"e\":\"Infra\",\"why\":\"setup failed\"}\n";
